@@ -532,8 +532,7 @@ def run(run):
                     ["propagate", "standard_Redfield", False, "rho0", 1],
                     ["propagate", "standard_Foerster", False, "rho0", 1],
                     ["refill", "rho0", 1], ["refill", "rho0", 2], ["refill", "rho1", 2],
-                    ["eso", "all"], ["heom", "rho0"], ["heom_free", "rho0"],
-                    ["pop"], ["pop_matrix", 2]]
+                    ["eso", "all"], ["heom", "rho0"]]
     run_bfs(run, execute, depth + 1, cap_s=25 if run.tier == "quick" else 240,
             section="refill-focus")
     # refused calls and propagator settings followed by every kind of use of the same objects
@@ -545,7 +544,8 @@ def run(run):
                     ["in", "basis", ["propagate", "standard_Redfield", False, "rho0", 1]],
                     ["in", "basis", ["propagate_free", "rho0"]],
                     ["tensor", "combined_RedfieldFoerster", False, False], ["sv"],
-                    ["dm", "thermal"]]
+                    ["dm", "thermal"], ["heom", "rho0"], ["heom_free", "rho0"],
+                    ["pop"], ["pop_matrix", 2], ["pop_matrix", -1]]
     run_bfs(run, execute, depth, cap_s=25 if run.tier == "quick" else 240,
             section="refusals-and-settings")
     execute.menu = full
